@@ -130,8 +130,8 @@ def compare_oracle(case, impl_res, orc):
     if len(got) != len(want):
         return [("<length>", len(got), len(want))]
     for g, a, b in zip(orc["groups"], got, want):
-        if b == "FILL":
-            continue  # no fill requested for an absent group: unspecified (C05)
+        if b in ("FILL", "UNSPEC"):
+            continue  # no fill requested for an absent group (C05) / group outside the property's scope
         if not I.same(a, b):
             bad.append((g, a, b))
     glabels = impl_res["groups"][0] if impl_res.get("groups") else None
@@ -188,3 +188,122 @@ def rec_fill(rec):
     if f == "NA":
         return float("nan")
     return I.unf(f)
+
+
+MODEL_FUNCS = {"sum", "nansum", "prod", "nanprod", "max", "nanmax", "min", "nanmin", "count", "mean", "nanmean",
+               "var", "nanvar", "std", "nanstd", "nanfirst", "nanlast", "all", "any", "first", "last"}
+REFUSALS = ("ValueError", "NotImplementedError", "ImportError")
+
+
+def eager_of(case):
+    e = {k: v for k, v in case.items() if k not in ("chunks", "method", "reindex", "by_dask", "split_every", "scheduler")}
+    return e
+
+
+def compare_eager(chunked_res, eager_res, orc=None):
+    """chunked vs eager flox: values and labels"""
+    bad = []
+    unspec = set()
+    if orc and "result" in orc and len(orc["result"]) == len(chunked_res.get("result", [])):
+        unspec = {i for i, x in enumerate(orc["result"]) if x in ("UNSPEC", "FILL")}
+    if not eager_res["ok"]:
+        return []
+    if not chunked_res["ok"]:
+        return [("<exception>", chunked_res["exc"] + ": " + chunked_res.get("msg", ""), "eager succeeded")]
+    a, b = chunked_res["result"], eager_res["result"]
+    if chunked_res["shape"] != eager_res["shape"]:
+        return [("<shape>", chunked_res["shape"], eager_res["shape"])]
+    for i, (x, y) in enumerate(zip(a, b)):
+        if i not in unspec and not I.same(x, y):
+            bad.append((i, x, y))
+    ga = [[I.unf(x) for x in g] for g in chunked_res["groups"]]
+    gb = [[I.unf(x) for x in g] for g in eager_res["groups"]]
+    if not all(len(x) == len(y) and all(I.same(p, q) if not isinstance(p, str) else p == q for p, q in zip(x, y)) for x, y in zip(ga, gb)):
+        bad.append(("<labels>", chunked_res["groups"], eager_res["groups"]))
+    return bad
+
+
+def _one_pair(case):
+    r = _one(case)
+    e = I.run_flox(eager_of(case)) if case.get("chunks") is not None else None
+    return r + (e,)
+
+
+def run_pairs(cases, workers=None):
+    import multiprocessing as mp
+    from concurrent.futures import ProcessPoolExecutor
+
+    workers = workers or min(C.NCPU, 16)
+    if len(cases) < 40 or workers <= 1:
+        return [_one_pair(c) for c in cases]
+    with ProcessPoolExecutor(max_workers=workers, mp_context=mp.get_context("fork")) as ex:
+        return list(ex.map(_one_pair, cases, chunksize=max(1, len(cases) // (workers * 8))))
+
+
+def check_reduce_cases(run, cases, pid, nontrivial_fn, grouped_fn=None, vs_eager=False, model=True,
+                       oracle=True, internal_is_violation=True):
+    """shared driver: flox vs oracle / eager (property level) and flox vs Coq model (correspondence)"""
+    from . import findings as F
+
+    results = run_pairs(cases) if vs_eager else [r + (None,) for r in run_cases(cases)]
+    coq_cases, coq_idx = [], []
+    model_skipped = refused = 0
+    hist = {}
+    for i, (case, (impl_res, rec, orc, eager)) in enumerate(zip(cases, results)):
+        run.count(case_key(case), nontrivial_fn(case))
+        hk = f"{case['func']}|{rec.get('method')}|{rec.get('engine') or case.get('engine')}"
+        hist[hk] = hist.get(hk, 0) + 1
+        if i % max(1, len(cases) // 5) == 0:
+            run.sample({"case": case, "flox": impl_res.get("result", impl_res.get("exc")),
+                        "numpy_oracle": orc.get("result"), "resolved": rec})
+        if not impl_res["ok"] and impl_res["exc"] in REFUSALS:
+            refused += 1
+            continue
+        if not impl_res["ok"] and not internal_is_violation:
+            refused += 1
+            continue
+        bad = []
+        kind = ""
+        if vs_eager and eager is not None:
+            if not eager["ok"]:
+                refused += 1   # the eager call itself is refused / fails: C19's business, not a chunked-vs-eager difference
+                continue
+            bad = compare_eager(impl_res, eager, orc)
+            kind = "chunked flox result differs from the eager flox result on the same data"
+        if not bad and oracle and "error" not in orc:
+            bad = compare_oracle(case, impl_res, orc)
+            kind = "flox result differs from the per-group NumPy reduction"
+        if bad:
+            fid = F.classify(pid, case, impl_res, bad)
+            if fid:
+                run.known(fid, F.describe(fid))
+            else:
+                run.violation({"property": pid, "kind": kind, "case": case, "flox": impl_res, "oracle": orc,
+                               "eager": eager, "mismatches": bad[:5], "resolved": rec,
+                               "how_to_run": f"./check {pid} --replay <this file>"}, tag="oracle")
+            continue
+        if (model and impl_res["ok"] and "error" not in orc and "FILL" not in orc["result"]
+                and "UNSPEC" not in orc["result"] and case["func"] in MODEL_FUNCS):
+            grouped = grouped_fn(case, rec) if grouped_fn else False
+            try:
+                coq_cases.append(coq_case(case, rec, impl_res, grouped))
+                coq_idx.append(i)
+            except (ValueError, KeyError):
+                model_skipped += 1
+    run.extra["refused_cases"] = run.extra.get("refused_cases", 0) + refused
+    run.extra.setdefault("distribution_func_method_engine", {}).update(hist)
+    if not model or not coq_cases:
+        return
+    ok, mfail, sfail, log = eval_cases(coq_cases, pid)
+    run.extra["model_cases_evaluated_in_coq"] = run.extra.get("model_cases_evaluated_in_coq", 0) + len(coq_cases)
+    run.extra["model_cases_skipped"] = run.extra.get("model_cases_skipped", 0) + model_skipped
+    run.oblige("correspondence:K3 model(Cases.model_ok) == flox", ok and not mfail,
+               (log[-400:] if not ok else "") + (f" {len(mfail)} mismatching cases" if mfail else ""))
+    run.oblige("correspondence:K0 Spec(Cases.spec_ok) == flox == NumPy", ok and not sfail,
+               f"{len(sfail)} mismatching cases" if sfail else "")
+    if not ok or mfail or sfail:
+        ex = [cases[coq_idx[j]] for j in (mfail + sfail)[:3]]
+        run.violation({"property": pid, "kind": "correspondence between the Coq model and flox no longer checks",
+                       "suite": "K3/K0 (Cases.v)", "examples": ex, "coq_log": log[-1500:],
+                       "note": "flox agrees with the NumPy oracle on these cases; the model or the code changed"},
+                      nofail=True, tag="corr")
